@@ -1,4 +1,4 @@
-import QibProofs.Lemmas.CompactLoop
+import QibProofs.Lemmas.CompactMat
 /-!
 C13 helper lemmas, part 12: the strings of a fixed length form a group under `PS.mul` (associativity of the mod-4 phase
 formula, identity, commuting strings commute as strings), and consequently the loop product around a face does not depend
@@ -123,5 +123,116 @@ theorem mul_neg (P R : PS) : P.mul (neg R) = neg (P.mul R) := by
     omega
   have e1 : P.mul (neg R) = ⟨List.zipWith xor P.z R.z, List.zipWith xor P.x R.x, (P.mul (neg R)).q⟩ := rfl
   rw [e1, hq]; rfl
+
+/-! ### four involutions in a row -/
+
+theorem cancel_left (n : Nat) (A X : PS) (hA : A.HasLen n) (hX : X.HasLen n) (hAA : A.mul A = PS.identity n) :
+    A.mul (A.mul X) = X := by
+  rw [← mul_assoc' n A A X hA hA hX, hAA, identity_mul n X hX]
+
+/-- moving the first factor of a product of four to the end does not change it, if it commutes with the product -/
+theorem rot4 (n : Nat) (A B C D : PS) (hA : A.HasLen n) (hB : B.HasLen n) (hC : C.HasLen n) (hD : D.HasLen n)
+    (hAA : A.mul A = PS.identity n) (hc : anti (((A.mul B).mul C).mul D) A = false) :
+    ((B.mul C).mul D).mul A = ((A.mul B).mul C).mul D := by
+  have lBC := mul_hasLen n _ _ hB hC
+  have lBCD := mul_hasLen n _ _ lBC hD
+  have lAB := mul_hasLen n _ _ hA hB
+  have lABC := mul_hasLen n _ _ lAB hC
+  have lL := mul_hasLen n _ _ lABC hD
+  have lM := mul_hasLen n _ _ lBCD hA
+  -- A · M = L · A = A · L
+  have h1 : A.mul (((B.mul C).mul D).mul A) = A.mul (((A.mul B).mul C).mul D) := by
+    rw [← mul_assoc' n A _ A hA lBCD hA, ← mul_assoc' n A _ D hA lBC hD, ← mul_assoc' n A B C hA hB hC,
+      mul_comm_of_not_anti _ _ hc]
+  have h2 : A.mul (A.mul (((B.mul C).mul D).mul A)) = A.mul (A.mul (((A.mul B).mul C).mul D)) := by rw [h1]
+  rwa [cancel_left n A _ hA lM hAA, cancel_left n A _ hA lL hAA] at h2
+
+/-- the product of four involutions times the product in the reverse order is the identity -/
+theorem rev4 (n : Nat) (A B C D : PS) (hA : A.HasLen n) (hB : B.HasLen n) (hC : C.HasLen n) (hD : D.HasLen n)
+    (hAA : A.mul A = PS.identity n) (hBB : B.mul B = PS.identity n) (hCC : C.mul C = PS.identity n)
+    (hDD : D.mul D = PS.identity n) :
+    (((A.mul B).mul C).mul D).mul (((D.mul C).mul B).mul A) = PS.identity n := by
+  have lDC := mul_hasLen n _ _ hD hC
+  have lDCB := mul_hasLen n _ _ lDC hB
+  have lX := mul_hasLen n _ _ lDCB hA
+  have lAB := mul_hasLen n _ _ hA hB
+  have lABC := mul_hasLen n _ _ lAB hC
+  have lCB := mul_hasLen n _ _ hC hB
+  have lCBA := mul_hasLen n _ _ lCB hA
+  have lBA := mul_hasLen n _ _ hB hA
+  -- D · (((D C) B) A) = (C B) A
+  have s1 : D.mul (((D.mul C).mul B).mul A) = (C.mul B).mul A := by
+    rw [← mul_assoc' n D _ A hD lDCB hA, ← mul_assoc' n D _ B hD lDC hB, cancel_left n D C hD hC hDD]
+  have s2 : C.mul ((C.mul B).mul A) = B.mul A := by
+    rw [← mul_assoc' n C _ A hC lCB hA, cancel_left n C B hC hB hCC]
+  have s3 : B.mul (B.mul A) = A := cancel_left n B A hB hA hBB
+  rw [mul_assoc' n _ D _ lABC hD lX, s1, mul_assoc' n _ C _ lAB hC lCBA, s2, mul_assoc' n A B _ hA hB lBA, s3, hAA]
+
+theorem mul_identity (n : Nat) (P : PS) (hP : P.HasLen n) : P.mul (PS.identity n) = P := by
+  rw [mul_comm_of_not_anti _ _ (anti_identity_right n P), identity_mul n P hP]
+
+theorem neg4 (A B C D : PS) : (((neg A).mul (neg B)).mul (neg C)).mul (neg D) = ((A.mul B).mul C).mul D := by
+  simp only [neg_mul, mul_neg, neg_neg]
+
+/-- **the loop product does not depend on the starting corner nor on the direction**: with `E₀ … E₃` the edge operators
+along `(x,y) → (x,y+1) → (x+1,y+1) → (x+1,y) → (x,y)` and `F₀ … F₃` the operators of the reversed edges -/
+theorem loop_variants {n0 n1 x y : Nat} (h : FaceIn n0 n1 x y) :
+    let E0 := edgeStr n0 n1 x y x (y + 1)
+    let E1 := edgeStr n0 n1 x (y + 1) (x + 1) (y + 1)
+    let E2 := edgeStr n0 n1 (x + 1) (y + 1) (x + 1) y
+    let E3 := edgeStr n0 n1 (x + 1) y x y
+    let F0 := edgeStr n0 n1 x (y + 1) x y
+    let F1 := edgeStr n0 n1 (x + 1) (y + 1) x (y + 1)
+    let F2 := edgeStr n0 n1 (x + 1) y (x + 1) (y + 1)
+    let F3 := edgeStr n0 n1 x y (x + 1) y
+    let L := loopStr n0 n1 x y
+    ((E1.mul E2).mul E3).mul E0 = L ∧ ((E2.mul E3).mul E0).mul E1 = L ∧ ((E3.mul E0).mul E1).mul E2 = L ∧
+    ((F3.mul F2).mul F1).mul F0 = L ∧ ((F2.mul F1).mul F0).mul F3 = L ∧ ((F1.mul F0).mul F3).mul F2 = L ∧
+    ((F0.mul F3).mul F2).mul F1 = L := by
+  intro E0 E1 E2 E3 F0 F1 F2 F3 L
+  obtain ⟨e0, e1, e2, e3⟩ := loop_edges_ok h
+  have l0 : E0.HasLen _ := edgeStr_hasLen e0
+  have l1 : E1.HasLen _ := edgeStr_hasLen e1
+  have l2 : E2.HasLen _ := edgeStr_hasLen e2
+  have l3 : E3.HasLen _ := edgeStr_hasLen e3
+  have s0 : E0.mul E0 = _ := mul_self_of_herm _ _ l0 (edgeStr_q_even e0)
+  have s1 : E1.mul E1 = _ := mul_self_of_herm _ _ l1 (edgeStr_q_even e1)
+  have s2 : E2.mul E2 = _ := mul_self_of_herm _ _ l2 (edgeStr_q_even e2)
+  have s3 : E3.mul E3 = _ := mul_self_of_herm _ _ l3 (edgeStr_q_even e3)
+  have c0 : anti L E0 = false := anti_loop_edge h e0
+  have c1 : anti L E1 = false := anti_loop_edge h e1
+  have c2 : anti L E2 = false := anti_loop_edge h e2
+  have c3 : anti L E3 = false := anti_loop_edge h e3
+  have hL : L = ((E0.mul E1).mul E2).mul E3 := rfl
+  have lL : L.HasLen _ := loopStr_hasLen h
+  have sL : L.mul L = _ := loopStr_sq h
+  -- forward rotations
+  have r1 : ((E1.mul E2).mul E3).mul E0 = L := rot4 _ E0 E1 E2 E3 l0 l1 l2 l3 s0 (hL ▸ c0)
+  have r2 : ((E2.mul E3).mul E0).mul E1 = L := by
+    rw [rot4 _ E1 E2 E3 E0 l1 l2 l3 l0 s1 (by rw [r1]; exact c1), r1]
+  have r3 : ((E3.mul E0).mul E1).mul E2 = L := by
+    rw [rot4 _ E2 E3 E0 E1 l2 l3 l0 l1 s2 (by rw [r2]; exact c2), r2]
+  -- reversed edges
+  have f0 : F0 = neg E0 := edgeStr_rev e0
+  have f1 : F1 = neg E1 := edgeStr_rev e1
+  have f2 : F2 = neg E2 := edgeStr_rev e2
+  have f3 : F3 = neg E3 := edgeStr_rev e3
+  -- the reverse product is the inverse of `L`, and `L` is an involution
+  have lR := mul_hasLen _ _ _ (mul_hasLen _ _ _ (mul_hasLen _ _ _ l3 l2) l1) l0
+  have hrev : ((E3.mul E2).mul E1).mul E0 = L := by
+    have k := rev4 _ E0 E1 E2 E3 l0 l1 l2 l3 s0 s1 s2 s3
+    have k2 : L.mul (L.mul (((E3.mul E2).mul E1).mul E0)) = L.mul (PS.identity (ofcNsites n0 n1)) := by rw [hL, k]
+    rwa [cancel_left _ L _ lL lR sL, mul_identity _ L lL] at k2
+  have q1 : ((E2.mul E1).mul E0).mul E3 = L := by
+    rw [rot4 _ E3 E2 E1 E0 l3 l2 l1 l0 s3 (by rw [hrev]; exact c3), hrev]
+  have q2 : ((E1.mul E0).mul E3).mul E2 = L := by
+    rw [rot4 _ E2 E1 E0 E3 l2 l1 l0 l3 s2 (by rw [q1]; exact c2), q1]
+  have q3 : ((E0.mul E3).mul E2).mul E1 = L := by
+    rw [rot4 _ E1 E0 E3 E2 l1 l0 l3 l2 s1 (by rw [q2]; exact c1), q2]
+  refine ⟨r1, r2, r3, ?_, ?_, ?_, ?_⟩
+  · rw [f0, f1, f2, f3, neg4]; exact hrev
+  · rw [f0, f1, f2, f3, neg4]; exact q1
+  · rw [f0, f1, f2, f3, neg4]; exact q2
+  · rw [f0, f1, f2, f3, neg4]; exact q3
 
 end Qib.Compact
